@@ -1042,6 +1042,14 @@ func oracleC20(r *Rng, n int, thorough bool, seeds []string) *OracleResult {
 				vals = append(vals, m)
 			}
 		}
+		for w := 0; w < workers; w++ {
+			// and small messages that consist of little else: they print fast, so the
+			// printers meet often
+			m := &dhcpv6.Message{MessageType: dhcpv6.MessageTypeSolicit, TransactionID: dhcpv6.TransactionID{byte(w), 2, 3}}
+			m.AddOption(&dhcpv6.OptionGeneric{OptionCode: dhcpv6.OptionCode(1000 + 1024*w), OptionData: []byte{byte(w)}})
+			m.AddOption(&dhcpv6.OptionGeneric{OptionCode: dhcpv6.OptionCode(200 + 64*w), OptionData: []byte{byte(w)}})
+			vals = append(vals, m)
+		}
 		want := make([]string, len(vals))
 		for i, v := range vals {
 			want[i] = v.Summary()
